@@ -1,7 +1,7 @@
 (* C15 — dist and weighted selection follow their weights; zero weight means never.  Property theorems only.
    Probabilities are stated as counts of the equally likely draws r in [1, total]. *)
 From Coq Require Import ZArith List Bool.
-From PV Require Import Rand.Select Rand.SelectProofs.
+From PV Require Import Common.Bits Rand.Expr Rand.Select Rand.SelectProofs Rand.Dist Rand.DistProofs.
 Import ListNotations.
 Open Scope Z_scope.
 
@@ -30,6 +30,37 @@ Theorem C15_dist_target_zero_never : forall ws i r,
   Forall (fun w => 0 <= w) ws -> nth i ws 0 = 0 -> next_target_at ws r <> Some i.
 Proof. exact next_target_zero_never. Qed.
 Print Assumptions C15_dist_target_zero_never.
+
+(* the dist constraint itself: its per-call rewrite (Rand/Dist.v) holds iff the value lies in some listed entry and in no
+   entry whose weight is zero - so unlisted values and zero-weight entries are never produced, whatever else constrains the
+   field; the entry the value lies in has a non-zero weight; with every weight zero (or no entry) it cannot hold *)
+Theorem C15_dist_confines : forall G rho e ws, dist_ok G rho e ws ->
+  (holds_all G rho (dist_stmts e ws) = Some true <->
+     (exists w, In w ws /\ truth G rho (in_item e (fst w)) = Some true) /\
+     (forall w, In w ws -> truth G rho (EBin Eq (snd w) (ELit 0 false 8)) = Some true ->
+                truth G rho (in_item e (fst w)) = Some false)).
+Proof. exact dist_confines. Qed.
+Print Assumptions C15_dist_confines.
+Theorem C15_dist_nonzero_support : forall G rho e ws, dist_ok G rho e ws ->
+  holds_all G rho (dist_stmts e ws) = Some true ->
+  exists w, In w ws /\ truth G rho (in_item e (fst w)) = Some true /\
+            truth G rho (EBin Eq (snd w) (ELit 0 false 8)) = Some false.
+Proof. exact dist_nonzero_support. Qed.
+Print Assumptions C15_dist_nonzero_support.
+Theorem C15_dist_all_zero_unsat : forall G rho e ws, dist_ok G rho e ws ->
+  (forall w, In w ws -> truth G rho (EBin Eq (snd w) (ELit 0 false 8)) = Some true) ->
+  holds_all G rho (dist_stmts e ws) <> Some true.
+Proof. exact dist_all_zero_unsat. Qed.
+Print Assumptions C15_dist_all_zero_unsat.
+
+(* non-vacuity: an 8-bit field, entries 1 (weight 10), 2..9 (weight in a non-random field = 3), 20 (weight 0) *)
+Example C15_dist_example :
+  let G := [mkF 8 false; mkF 4 false] in
+  let ws := [((ELit 1 true 32, None), ELit 10 true 32); ((ELit 2 true 32, Some (ELit 9 true 32)), EField 1);
+             ((ELit 20 true 32, None), ELit 0 true 32)] in
+  let at_ := fun v w => holds_all G (fun id : nat => match id with 0%nat => v | _ => w end) (dist_stmts (EField 0) ws) in
+  at_ 1 3 = Some true /\ at_ 5 3 = Some true /\ at_ 20 3 = Some false /\ at_ 5 0 = Some false /\ at_ 100 3 = Some false.
+Proof. vm_compute. repeat split; reflexivity. Qed.
 
 Example C15_example : map (fun r => distselect_at [5; 0; 2] r) [1; 2; 3; 7] = [Some 2%nat; Some 2%nat; Some 0%nat; Some 0%nat].
 Proof. vm_compute. reflexivity. Qed.
